@@ -138,6 +138,9 @@ impl Answers {
         let guard = self.current_token.lock();
         let mut token = self.condvar.wait_while(guard, |t| *t != Some(token));
         *token = None;
+        // The hot-reloading thread may be waiting in `notify` for the slot to
+        // be empty before answering another caller.
+        self.condvar.notify_all();
     }
 }
 
